@@ -8,6 +8,13 @@ DATE = "20130524T000000Z"
 
 
 def request(kind, method="GET", path="/bkt/key", pairs=()):
+    if kind.startswith("post"):
+        import authfam
+        if kind == "post":
+            return authfam.post_form(ak=AK, secret=SK)
+        if kind == "postbadsig":
+            return authfam.post_form(ak=AK, secret=SK, mutate_fields=lambda fl: [(n, authfam.flip_last_hex(v) if n == "x-amz-signature" else v) for n, v in fl])
+        return authfam.post_form(ak=AK, secret=SK, mutate_fields=lambda fl: [(n, "" if n == "x-amz-signature" else v) for n, v in fl])
     hs = [("host", "localhost")]
     uri = path + ("?" + sigref.query_string(pairs) if pairs else "")
     if kind == "anon":
@@ -28,7 +35,7 @@ def family():
     for auth in (True, False):
         for access in (None, "allow", "deny", "deny_typed"):
             for route in (None, "match", "nomatch"):
-                for kind in ("anon", "valid", "badsecret", "unknownkey", "tampered", "emptysig", "truncsig"):
+                for kind in ("anon", "valid", "badsecret", "unknownkey", "tampered", "emptysig", "truncsig", "post", "postbadsig", "postemptysig"):
                     cfg = {}
                     if auth:
                         cfg["auth"] = {AK: SK}
@@ -47,12 +54,14 @@ def oracle(auth, access, route, kind, out):
     sens = [e for e in evs if e["ev"].startswith("s3.") or e["ev"] == "route.call"]
     if "panic" in out and out["panic"]:
         return None
+    if route == "match" and kind.startswith("post"):
+        return None       # a matching custom route takes the request before the form is routed; covered by the GET kinds
     if not auth:
         if kind != "anon" and sens:
             return "no provider configured but a signed request reached %s" % sens[0]["ev"]
         return None
-    signed_ok = kind == "valid"
-    if kind in ("badsecret", "unknownkey", "tampered", "emptysig", "truncsig"):
+    signed_ok = kind in ("valid", "post")
+    if kind in ("badsecret", "unknownkey", "tampered", "emptysig", "truncsig", "postbadsig", "postemptysig"):
         if sens:
             return "request with %s reached %s" % (kind, sens[0]["ev"])
         if any(n.startswith("access.") or n == "route.check_access" for n in names):
